@@ -8,6 +8,7 @@
 pub const OPERANDS: &[&str] = &[
     "A", "A$", "A%", "B#", "A(1)", "A$(1)", "R.F", "R", "CHR", "CHR$(65)", "LEN", "LEN(A$)", "1", "1.5",
     "70000", "\"s\"", "(1)", "(A$)", "-A", "A + 1", "A$ + \"x\"", "F(1)", "G$(\"x\")", "ERR", "UCASE$(5)", "",
+    "A(1).F", "R.S",
 ];
 
 /// Declarations placed before every instantiated template, so that the names of
@@ -90,6 +91,8 @@ pub const TEMPLATES: &[&str] = &[
     "A(@) = @|1,1",
     "A$(@) = @|1,\"x\"",
     "SWAP @, @|A,A",
+    "@|P",
+    "@ @|P,1",
 ];
 
 pub struct Template {
